@@ -1246,15 +1246,20 @@ func c10Boundary(r *c10Rand, c *c10Case, self, other common.Address) (code []byt
 		name = "stack-overflow-push-loop"
 		l := a.newLabel()
 		a.label(l).push(uint64(r.Intn(5))).pushLabel(l).op(JUMP)
-	case 1: // stack exactly 1024 then DUP / PUSH / SWAP
+	case 1: // stack filled to exactly 1022..1025 items by straight-line code, then one opcode at the limit
 		name = "stack-1023-1024"
-		n := 1022 + r.Intn(3)
-		l, e := a.newLabel(), a.newLabel()
-		a.push(uint64(n))
-		a.label(l).op(DUP1, ISZERO).pushLabel(e).op(JUMPI)
-		a.push(1).op(SWAP1, SUB).op(DUP1).pushLabel(l).op(JUMP) // grows by one per iteration
-		a.label(e)
-		a.op([]OpCode{DUP1, DUP16, SWAP16, PUSH1, MSIZE, ADDRESS, POP}[r.Intn(7)])
+		n := 1022 + r.Intn(4)
+		for i := 0; i < n; i++ {
+			a.op(PC)
+		}
+		switch r.Pick(5, 3, 4) {
+		case 0:
+			a.op(DUP1 + OpCode(r.Intn(16)))
+		case 1:
+			a.op(SWAP1 + OpCode(r.Intn(16)))
+		default:
+			a.op([]OpCode{PUSH1, MSIZE, ADDRESS, POP, ADD, JUMPDEST, CALLDATASIZE, ISZERO, PUSH32}[r.Intn(9)])
+		}
 		a.raw(0)
 		a.push(1).push(0).op(SSTORE).op(STOP)
 	case 2: // call depth recursion until the limit
